@@ -11,6 +11,11 @@ fn main() {
         // private subcommand: worker process of the subprocess-isolation helper (harness/src/isolate.rs)
         "worker" => icverif::isolate::worker_main(&args[2..]),
         "isolate-selftest" => icverif::isolate::selftest(),
+        "c25-stats" => {
+            let tier = if args.get(2).map(|s| s.as_str()) == Some("thorough") { Tier::Thorough } else { Tier::Quick };
+            println!("{}", serde_json::to_string_pretty(&icverif::props::c25::C25Job::new(tier).stats()).unwrap());
+            0
+        }
         "check" => {
             let tier = match args.get(3).map(|s| s.as_str()) {
                 Some("thorough") => Tier::Thorough,
